@@ -673,6 +673,14 @@ class Evaluator:
                     return _lift(self.P.modules[src].consts[attr])
                 return TOP
             if name in mod.const_nodes:
+                cn = mod.const_nodes[name]
+                if isinstance(cn, ast.Call) and isinstance(cn.func, ast.Name) and cn.func.id == "object" and not cn.args and not cn.keywords:
+                    # a module-level sentinel: one opaque object, equal only to itself
+                    cache = self.P.__dict__.setdefault("_sentinels", {})
+                    key = (modname, name)
+                    if key not in cache:
+                        cache[key] = Obj("sentinel", f"{modname}.{name}", (), {"__bool__": True})
+                    return cache[key]
                 return TOP
         if name in BUILTINS:
             return Builtin(name)
@@ -1399,10 +1407,12 @@ class Evaluator:
             cq = recv.attrs.get("__class__")
             if cq and f"{cq}.{name}" in self.P.functions:
                 fi2 = self.P.functions[f"{cq}.{name}"]
+                decos = {d.id for d in fi2.node.decorator_list if isinstance(d, ast.Name)}
+                bound = [] if "staticmethod" in decos else ([ClassRef(cq)] if "classmethod" in decos else [recv])
                 mm = self.models.get(fi2.q)
                 if mm is not None:
-                    return mm(self, [recv] + args, kwargs, node)
-                return self.call_function(FuncV(fi2, fi2.node, None, fi2.module), [recv] + args, kwargs, node)
+                    return mm(self, bound + args, kwargs, node)
+                return self.call_function(FuncV(fi2, fi2.node, None, fi2.module), bound + args, kwargs, node)
             return recv.with_eff((name, tuple(args), tuple(sorted(kwargs.items(), key=lambda kv: str(kv[0])))))
         if recv is TOP:
             return TOP
